@@ -7,8 +7,12 @@
 //	gcd <a> <b> | gcdm <w,w,...>                      real lib/math GCD / GCDM
 //	build <nacq> <tables> <reqs> <scens>              real http.NewProvider; ring order over nacq acquisitions,
 //	                                                  expansion (request, pause) of every delivered scenario
-//	shot <nshots> <script> <tables> <reqs> <scens>    provider + ONE gun against the scripted target; per shot:
-//	                                                  request log with the variables each template saw, samples
+//	shot <nshots> <script> <tables> <reqs> <scens> [gun:d|gun:f]
+//	                                                  provider + ONE gun against the scripted target; per shot:
+//	                                                  request log with the variables each template saw, samples.
+//	                                                  The gun is built from the `gun:` section of a pool config
+//	                                                  through the plugin registry (registered defaults): gun:d =
+//	                                                  type and target only, gun:f = `redirect: false` written too
 //	inst <instances> <total> <tables> <reqs> <scens>  provider + several guns concurrently; rows seen per scenario
 //	iter <goroutines> <per> <len> <rounds>            real mp.NextIterator / GetMapValue from several goroutines;
 //	                                                  <rounds> start-ups per arena with simultaneous first calls
@@ -22,8 +26,10 @@ package main
 import (
 	"context"
 	"fmt"
+	"io"
 	"os"
 	"os/exec"
+	"reflect"
 	"runtime"
 	"sort"
 	"strconv"
@@ -33,7 +39,6 @@ import (
 	"time"
 
 	"github.com/spf13/afero"
-	phttp "github.com/yandex/pandora/components/guns/http"
 	httpscenario "github.com/yandex/pandora/components/guns/http_scenario"
 	ammo "github.com/yandex/pandora/components/providers/scenario"
 	sconfig "github.com/yandex/pandora/components/providers/scenario/config"
@@ -41,6 +46,7 @@ import (
 	_import "github.com/yandex/pandora/components/providers/scenario/import"
 	"github.com/yandex/pandora/core"
 	"github.com/yandex/pandora/core/aggregator/netsample"
+	coreconfig "github.com/yandex/pandora/core/config"
 	"github.com/yandex/pandora/core/plugin/pluginconfig"
 	pmath "github.com/yandex/pandora/lib/math"
 	"github.com/yandex/pandora/lib/mp"
@@ -158,10 +164,42 @@ func runProvider(p core.Provider) context.CancelFunc {
 	return cancel
 }
 
-func newGun(ag netsample.Aggregator, id int) *httpscenario.ScenarioGun {
-	g := httpscenario.NewHTTPGun(phttp.GunConfig{Target: target.Addr(), TargetResolved: target.Addr()}, zap.NewNop())
-	_ = g.Bind(ag, core.GunDeps{Ctx: context.Background(), Log: zap.NewNop(), PoolID: "verif", InstanceID: id})
-	return g
+// regGun: a gun built the way an instance pool builds it: the `gun:` section of a pool config decoded
+// through the plugin registry (the registered constructor and its registered DEFAULT config), so
+// every option the description does not write has the value a user gets.
+type regGun struct{ g core.Gun }
+
+func (r regGun) Shoot(a core.Ammo) { r.g.Shoot(a) }
+func (r regGun) Close() {
+	// the registered wrapper does not expose Close; its exported field Gun does
+	v := reflect.ValueOf(r.g)
+	if v.Kind() == reflect.Ptr && v.Elem().Kind() == reflect.Struct {
+		if f := v.Elem().FieldByName("Gun"); f.IsValid() && f.CanInterface() {
+			if c, ok := f.Interface().(io.Closer); ok {
+				_ = c.Close()
+			}
+		}
+	}
+}
+
+// gunOpt: "d" = only type and target are written; "f" = `redirect: false` is written as well
+func newGun(ag netsample.Aggregator, id int, gunOpt string) regGun {
+	section := map[string]interface{}{"type": "http/scenario", "target": target.Addr()}
+	if gunOpt == "f" {
+		section["redirect"] = false
+	}
+	var d struct {
+		Gun func() (core.Gun, error)
+	}
+	if err := coreconfig.DecodeAndValidate(map[string]interface{}{"gun": section}, &d); err != nil {
+		panic("gun section rejected: " + err.Error())
+	}
+	g, err := d.Gun()
+	if err != nil {
+		panic("gun constructor: " + err.Error())
+	}
+	_ = g.Bind(netsample.WrapAggregator(ag), core.GunDeps{Ctx: context.Background(), Log: zap.NewNop(), PoolID: "verif", InstanceID: id})
+	return regGun{g}
 }
 
 func runBuild(f []string) string {
@@ -198,7 +236,12 @@ func sampleStr(s *netsample.Sample) string {
 	return fmt.Sprintf("%s/%d/%s", vh.HexS(s.Tags()), s.ProtoCode(), e)
 }
 
-func runShot(f []string) string {
+func runShot(f []string) (result string) {
+	defer func() {
+		if r := recover(); r != nil {
+			result = "gun-construction-failed"
+		}
+	}()
 	nshots, _ := strconv.Atoi(f[1])
 	script := a15.ParseScript(f[2])
 	spec := a15.ParseSpec(f[3], f[4], f[5])
@@ -210,7 +253,11 @@ func runShot(f []string) string {
 	cancel := runProvider(p)
 	defer cancel()
 	ag := &recAggr{}
-	g := newGun(ag, 1)
+	gunOpt := "d"
+	if len(f) > 6 {
+		gunOpt = strings.TrimPrefix(f[6], "gun:")
+	}
+	g := newGun(ag, 1, gunOpt)
 	defer g.Close()
 	var out []string
 	for i := 0; i < nshots; i++ {
@@ -343,7 +390,7 @@ func runInst(f []string) string {
 					bad.Store("panic")
 				}
 			}()
-			g := newGun(ag, id)
+			g := newGun(ag, id, "d")
 			defer g.Close()
 			for {
 				if atomic.AddInt64(&taken, 1) > int64(total) {
